@@ -127,17 +127,27 @@ inductive UErr
   | notIota | gate
   deriving DecidableEq, Repr
 
-/-- `StateMetadataDocument::into_iota_document` -/
-def intoIota (isIota : Nat → Bool) (P t : Nat) (d : IDoc) : Except UErr IDoc :=
+/-- sizes of the seven collections (`CoreDocumentData::collection_sizes`) -/
+def IDoc.sizes (d : IDoc) : List Nat :=
+  [d.vm.length, d.auth.length, d.asrt.length, d.keyAgr.length, d.capDel.length, d.capInv.length, d.service.length]
+
+/-- `StateMetadataDocument::into_iota_document`; `chk`: `CoreDocument::try_map` compares collection sizes -/
+def intoIotaG (chk : Bool) (isIota : Nat → Bool) (P t : Nat) (d : IDoc) : Except UErr IDoc :=
   let strict : Nat → Option Nat := fun x =>
     if x = P then some t else if Gen.C14.idAndControllerChecked && !isIota x then none else some x
   let lax : Nat → Option Nat := fun x => some (if x = P then t else x)
   match dataTryMap strict strict lax lax d with
   | none => .error .notIota
   | some d' =>
-    match gate d' with
-    | none => .error .gate
-    | some d'' => .ok d''
+    -- `CoreDocument::try_map`: a collection that became smaller means two entries got one identifier
+    if chk && d'.sizes != d.sizes then .error .gate
+    else
+      match gate d' with
+      | none => .error .gate
+      | some d'' => .ok d''
+
+def intoIota (isIota : Nat → Bool) (P t : Nat) (d : IDoc) : Except UErr IDoc :=
+  intoIotaG Gen.C14.tryMapChecksSizes isIota P t d
 
 /-! ### framing -/
 
